@@ -174,7 +174,8 @@ def oracle(c, io):
         prev = s
     # pipeline: recreate + match reproduces the transformed averages
     names = [o["op"] for o in c["ops"]]
-    if "recreate" in names and "match" in names and names.index("match") == names.index("recreate") + 1:
+    if "recreate" in names and "match" in names and names.index("match") == names.index("recreate") + 1 \
+            and not c["ops"][names.index("match")].get("fpi"):
         ir = names.index("recreate") + 1
         im = ir + 1
         if im < len(steps) and "state" in steps[im] and "err" not in steps[im] and "err" not in steps[ir]:
@@ -194,10 +195,13 @@ def oracle(c, io):
                     else:
                         got = sum(seg_y[j] * (seg_x[j + 1] - seg_x[j]) for j in range(n))
                     want = (ry[q] if refrule == "rectangle" else (ry[q] + ry[q + 1]) / 2) * (rx[q + 1] - rx[q])
-                    # relative to the data's own magnitude over this interval (an all-zero interval next to O(1) data
-                    # legitimately carries rounding residue of the neighbours' size)
+                    # relative to the magnitudes that enter this interval's arithmetic: its own values before and after the
+                    # match and the averages of the intervals up to two away (their transitions reach into it) - NOT the
+                    # largest value of the whole series: a burst elsewhere must not hide an interval that lost its average
+                    pre = steps[im - 1]["state"]["y"] if "state" in steps[im - 1] else []
+                    near = [abs(v) for v in ry[max(0, q - 2):q + 4]]
                     sc = (sum(max(abs(seg_y[j]), abs(seg_y[j + 1])) * (seg_x[j + 1] - seg_x[j]) for j in range(n)) + abs(want)
-                          + max(abs(v) for v in ry) * (rx[q + 1] - rx[q])) or 1e-300
+                          + max(near + [abs(v) for v in pre[q * n:(q + 1) * n + 1]] + [0.0]) * (rx[q + 1] - rx[q])) or 1e-300
                     if abs(got - want) > 1e-7 * sc:
                         return (f"after the history, recreate + match does not reproduce the transformed average of "
                                 f"interval {q}: integral {got!r} vs {want!r}")
